@@ -158,6 +158,59 @@ mod proofs {
   bp!(c35_utxo_bp_111_n1_b2, 6, true, true, true, 1, 1, 1, B2, B2);
   bp!(c35_utxo_bp_101_n1_b2, 6, true, false, true, 1, 0, 1, B2, B2);
 
+  /// Scripts whose length needs a multi-byte varint (>= 128 bytes), followed by one
+  /// inscription: the inscriptions slice must start exactly after the script. No loops in the
+  /// harness itself (slices compared at chosen indices), so the unwind bound only has to cover
+  /// the varint loops (<= 3 bytes here).
+  fn long_script<const N: usize>(nr: usize) {
+    let index = Index { index_addresses: true, index_inscriptions: true, index_sats: true };
+    let script: [u8; N] = kani::any();
+    let seq: u32 = kani::any();
+    let off: u64 = kani::any();
+    kani::assume(off <= B1);
+    let range = any_range();
+    let mut e = UtxoEntryBuf::new();
+    if nr == 1 {
+      e.push_sat_ranges(&range.store(), &index);
+    } else {
+      e.push_sat_ranges(&[], &index);
+    }
+    e.push_script_pubkey(&script, &index);
+    e.push_inscription(seq, off, &index);
+    let parsed = e.parse(&index);
+    let k: usize = kani::any();
+    kani::assume(k < N);
+    let sp = parsed.script_pubkey();
+    let ins = parsed.inscriptions();
+    let ok_script = sp.len() == N && sp[k] == script[k];
+    let sb = seq.to_le_bytes();
+    let ok_insc = ins.len() == 5 && ins[0] == sb[0] && ins[1] == sb[1] && ins[2] == sb[2] && ins[3] == sb[3] && ins[4] == off as u8;
+    let ok_ranges = parsed.sat_ranges().len() == 11 * nr;
+    kani::cover!(k == N - 1);
+    assert!(ok_script);
+    assert!(ok_insc);
+    assert!(ok_ranges);
+    std::mem::forget(e);
+  }
+
+  #[kani::proof]
+  #[kani::unwind(5)]
+  fn c35_utxo_long_script_128_r0() {
+    long_script::<128>(0);
+  }
+
+  #[kani::proof]
+  #[kani::unwind(5)]
+  fn c35_utxo_long_script_128_r1() {
+    long_script::<128>(1);
+  }
+
+  #[kani::proof]
+  #[kani::unwind(5)]
+  fn c35_utxo_long_script_300_r0() {
+    long_script::<300>(0);
+  }
+
   fn merged(sats: bool, addresses: bool, inscriptions: bool, anr: usize, ani: usize, bnr: usize, bni: usize, max_off: u64) {
     let index = Index { index_addresses: addresses, index_inscriptions: inscriptions, index_sats: sats };
     let mk = |nr: usize, ni: usize| Spec {
